@@ -21,8 +21,13 @@ QUICK_MODELS = [
     ("soft_unsucc1", dict(UseRestarts=True, MaxUnsucc=1, MaxFun=4, WithInf=True)),
     ("noise_soft", dict(WithNoise=True, UseRestarts=True, MaxFun=4)),
     ("regress", dict(RegSteps=1, MaxFun=5, NPT=3)),
+    ("grow", dict(NdirsInit=1, NPT=3, MaxFun=5)),
 ]
 THOROUGH_MODELS = [
+    ("grow6", dict(NdirsInit=1, NPT=3, MaxFun=6)),
+    ("grow_soft", dict(NdirsInit=1, NPT=3, MaxFun=6, UseRestarts=True)),
+    ("grow_hard", dict(NdirsInit=1, NPT=3, MaxFun=6, UseRestarts=True, SoftRestarts=False)),
+    ("grow_avg", dict(NdirsInit=1, NPT=3, MaxFun=5, MaxSamples=2)),
     ("noise_soft5", dict(WithNoise=True, UseRestarts=True, MaxFun=5)),
     ("noise_hard", dict(WithNoise=True, UseRestarts=True, SoftRestarts=False, MaxFun=5)),
     ("regress6", dict(RegSteps=1, MaxFun=6, NPT=3)),
